@@ -134,8 +134,11 @@ class _InlineFunction(XPathFunction):
         self.check_arguments_number(len(args))
 
         context = copy(context)
-        if self.variables and context is not None:
-            context.variables.update(self.variables)
+        if context is not None:
+            # The parameters and the closure are visible in the function body only
+            context.variables = context.variables.copy()
+            if self.variables:
+                context.variables.update(self.variables)
 
         if self.varnames is None:
             self.varnames = []
